@@ -281,10 +281,22 @@ func goHeader(h *SX) *message.IKEHeader {
 func goMsg(s *SX) *message.IKEMessage {
 	m := &message.IKEMessage{IKEHeader: goHeader(s.At(1)), Payloads: goPayloadsRaw(s.At(2))}
 	layout(m, s)
-	if valHash(s)%4 == 1 {
+	switch valHash(s) % 8 {
+	case 1, 5:
 		// a quarter of the message values have been encoded once before they are used (a retransmission, a logged copy):
 		// encoding alters nothing but header bookkeeping that the next encoding recomputes, so nothing may depend on it
 		quiet(func() { _, _ = m.Encode() })
+	case 3:
+		// an eighth are message OBJECTS used before for another message (a reply built in the object of the decoded
+		// request, a scratch message): encoded with other payloads, payload list reset, then given the payloads of s
+		own := m.Payloads
+		quiet(func() {
+			m.Payloads = message.IKEPayloadContainer{&message.Nonce{NonceData: []byte("payload of the message this object held before")},
+				&message.VendorID{VendorIDData: []byte{1, 2, 3, 4, 5, 6, 7}}}
+			_, _ = m.Encode()
+			m.Payloads.Reset()
+		})
+		m.Payloads = own
 	}
 	return m
 }
